@@ -508,6 +508,30 @@ def _raising(ctx):
                 raised = False
             except Boom:
                 raised = True
+            if raised and serial_raised:
+                # history: the SAME threaded form object, failure switched off, must now assemble like serial
+                flag = {'boom': True}
+
+                def form2(uu, vv, w):
+                    if flag['boom'] and int(uu.value[0, 0]) % 1000 == 1 + bj and int(vv.value[0, 0]) % 1000 == 10 * (bi + 1):
+                        raise Boom('first assembly fails')
+                    return uu * vv
+                f2 = BilinearForm(form2, nthreads=k)
+                try:
+                    f2._assemble(u, v)
+                except Boom:
+                    pass
+                flag['boom'] = False
+                ok_serial = BilinearForm(lambda uu, vv, w: uu * vv)._assemble(u, v)
+                try:
+                    again = f2._assemble(u, v)
+                    same = np.array_equal(again[1], ok_serial[1]) and np.array_equal(again[0], ok_serial[0])
+                    if not same:
+                        ctx.fail(f'after-failed-assembly!=serial:k={k}', 'a threaded form assembled again after an assembly whose integrand '
+                                 'raised differs from serial', {'Nu': Nu, 'Nv': Nv, 'k': k})
+                except Exception as e:
+                    ctx.fail(f'after-failed-assembly-raises:k={k}', f'a threaded form whose earlier assembly raised (and was caught) raises '
+                             f'{type(e).__name__} again although the integrand now succeeds: {e}', {'Nu': Nu, 'Nv': Nv, 'k': k})
             if raised != serial_raised:
                 ctx.fail(f'exception-lost-in-worker:Nu={Nu}:Nv={Nv}:k={k}',
                          'the integrand raises for one local pair: serial assembly raises, threaded assembly returns a '
@@ -615,8 +639,14 @@ def _oracle_real(ctx):
         if ctx.quick() and len(ks) > 8:
             ks = ks[:4] + rng.sample(ks[4:], 4)
         for k in ks:
-            B = BilinearForm(form, nthreads=k).assemble(ub, vb)
             ctx.count(('real', type(m).__name__, type(eu).__name__, type(ev).__name__, k), nontrivial=k >= 2)
+            try:
+                B = BilinearForm(form, nthreads=k).assemble(ub, vb)
+            except Exception as e:
+                ctx.fail(f'real-threaded-raises:{type(eu).__name__}x{type(ev).__name__}:k={k}',
+                         f'threaded assembly of an integrand that reads w.x raises {type(e).__name__}: {e} (serial assembly works)',
+                         {'mesh': type(m).__name__, 'trial': type(eu).__name__, 'test': type(ev).__name__, 'k': k})
+                continue
             if (A != B).nnz != 0 or A.shape != B.shape:
                 ctx.fail(f'real-threaded!=serial:{type(eu).__name__}x{type(ev).__name__}:k={k}',
                          'threaded matrix differs from serial on a real basis',
